@@ -9,21 +9,30 @@ def run(rep: Report, repo: Repo, tier: str) -> None:
     rep.assume("re.sub(pattern, '', text) removes whatever the configured pattern matches (regex semantics are not decided)",
                "ParseTreeWalker visits commands in source order, so 'body of a definition' = events between its definition event "
                "and the matching end command")
-    protocol.rule_defstack(rep, repo, "C03-R1")
-    bindings.rule_signature_bindings(rep, repo, "C03-R2")
-    render.rule_signature_template(rep, repo, "C03-R3")
-    tables.rule_strip_options_exist(rep, repo, "C03-R4")
-    tables.rule_settings_plain(rep, repo, "C03-R4s")
+    with rep.isolated():
+        protocol.rule_defstack(rep, repo, "C03-R1")
+    with rep.isolated():
+        bindings.rule_signature_bindings(rep, repo, "C03-R2")
+    with rep.isolated():
+        render.rule_signature_template(rep, repo, "C03-R3")
+    with rep.isolated():
+        tables.rule_strip_options_exist(rep, repo, "C03-R4")
+    with rep.isolated():
+        tables.rule_settings_plain(rep, repo, "C03-R4s")
     from . import writer_rules
     # the signature is a directive argument: it must reach the text as written
-    writer_rules.rule_values_verbatim(rep, repo, "C03-R5")
+    with rep.isolated():
+        writer_rules.rule_values_verbatim(rep, repo, "C03-R5")
     # the trigger string / strip patterns in effect are the configured ones: no CLI default may shadow them
     from .c16 import rule_cli_defaults
-    rule_cli_defaults(rep, repo, "C03-R6")
+    with rep.isolated():
+        rule_cli_defaults(rep, repo, "C03-R6")
     # '**kwargs' exactly once: the in-place append of the signature code runs once per entry (who-may-call)
     from . import misc_rules
-    misc_rules.rule_entry_methods_render_only(rep, repo, "C03-R7")
+    with rep.isolated():
+        misc_rules.rule_entry_methods_render_only(rep, repo, "C03-R7")
     if tier == "thorough":
         from . import trace_rules
-        trace_rules.rule_kwargs_traces(rep, repo, "C03-I")
+        with rep.isolated():
+            trace_rules.rule_kwargs_traces(rep, repo, "C03-I")
 
